@@ -221,7 +221,19 @@ def tt_programs(tier, raising_bias=False):
                 p["objects"]["g2"] = ["gate"]
                 p["label"] = f"repeated-cancel first={first_cancel} second={second} tail={tail}"
                 progs.append(p)
-    # children spawning children / nested groups
+    # a child (or the body) catches the group's cancellation and raises a fresh CancelledError
+    # with a message of its own: still the group's own cancellation, not an error
+    for depth in (1, 2):
+        rew = [["try", [["wait", "g"]], {"cancel": [], "rewrap": depth}]]
+        for other in ("wait", "cp_raise"):
+            for env in ("gate+cancel_group", "gate+cancel_outer"):
+                for where in ("child", "body"):
+                    if where == "child":
+                        p = make_program([rew, child_behaviours(1)[other]], [], ENVS[env])
+                    else:
+                        p = make_program([child_behaviours(0)[other]], rew, ENVS[env])
+                    p["label"] = f"rewrapped-cancel x{depth} in {where}, other={other} env={env}"
+                    progs.append(p)
     nested_children = [
         ("spawner", [["spawn", "G1", "gc"], ["wait", "g"]]),
         ("spawner_raise", [["spawn", "G1", "gc_raise"], ["wait", "g"]]),
